@@ -251,3 +251,17 @@ package channel
 //@   at call WithTimeout#1 assert #operation-timeout-threaded arg1 == (op.Timeout == -1 ? c.TimeoutOps : (op.Timeout == 0 ? 86400 * 1000000000 : op.Timeout))
 //@   ensures #nil-payload-on-error result.1 != nil ==> len(result.0) == 0
 //@   at return assert #timeout-class result.1 != nil && r != nil && isErr(r.err, context.DeadlineExceeded) ==> isErr(result.1, util.ErrTimeoutError)
+
+// ---- C06 / C16: the reader loop -----------------------------------------------------------------------------------------
+// errsAtHead: ghost snapshot of the number of errors handed over so far, taken at the top of every iteration
+//@ ghost errsAtHead int
+//@ chanmode Channel.Errs count
+//@ func (*Channel).read [C06 C16]
+//@   requires RI(c.Q) && c.Errs != c.Q.depthChan
+//@   modifies c.readLoopExited, c.Q.queue, c.Q.depth, chan(c.Q.depthChan), chan(c.Errs), errsAtHead, alloc()
+//@   loop 1 invariant RI(c.Q) && c.Errs != c.Q.depthChan
+//@   loop 1 set errsAtHead = chlen(c.Errs)
+//@   ensures #exit-is-recorded c.readLoopExited
+//@   at call Sleep#1 assert #every-read-error-is-handed-over-exactly-once chlen(c.Errs) == errsAtHead + 1
+//@   at call Enqueue#1 assert #only-chunks-read-without-error-are-queued err == nil
+//@   at call Enqueue#1 assert #nothing-handed-over-for-a-good-chunk chlen(c.Errs) == errsAtHead
